@@ -51,7 +51,13 @@ def getReq (j : Json) : Req :=
     intended := (match getStr j "intended" with
       | "malformed" => .malformed | "unknown" => .unknownMethod | "validation" => .validationError
       | "userFault" => .userFault (fcOf (getStr j "fc")) (optNat j "preset")
-      | _ => .success (getResp j)) }
+      | _ => .success (getResp j)),
+    onReturn := (match j.getObjVal? "onReturn" with
+      | .ok (.obj _) => some ⟨natList (getObj j "onReturn") "chunks", getBool (getObj j "onReturn") "sized"⟩
+      | _ => none),
+    onException := (match j.getObjVal? "onException" with
+      | .ok (.arr _) => some (natList j "onException")
+      | _ => none) }
 
 def optNatJson : Option Nat → Json
   | none => Json.null
